@@ -413,6 +413,26 @@ def main(engine_cls):
     total = explore(engine_cls, tier, seed, budget, max_runs, args.workers)
     wall_explore = time.time() - t_start
 
+    # regression corpus: the minimised plans of violations that were repaired in /repo (replays/fixed) are
+    # re-executed on every run; a repaired defect that comes back is reported like any other violation
+    import glob
+    fixed = sorted(glob.glob(os.path.join(VERIF, "replays", "fixed", prop + "-*.json")))
+    regress = 0
+    for n, path in enumerate(fixed):
+        try:
+            rp = json.load(open(path))
+            res = run_plan_fresh(engine_cls, tier, rp.get("seed", seed), rp["plan"])
+        except Exception:
+            total["errors"].append("regression replay %s: %s" % (os.path.basename(path), traceback.format_exc()[-600:]))
+            continue
+        regress += 1
+        total["ops"] += res.ops
+        for key, detail in res.violations:
+            detail = dict(detail)
+            detail["regression_of"] = os.path.basename(path)
+            total["violations"].append((key, -1 - n, rp["plan"], detail))
+    total["probes"]["regression_replays_of_repaired_defects"] = regress
+
     known = [k for k in load_known() if k["property"] == prop]
     open_keys = {k["key"]: k for k in known if k.get("status") == "open"}
     by_key = {}
